@@ -195,8 +195,10 @@ def check(ctx):
     # ---------------- fitted (not only basis) tensors on supercells with a lattice translation of order >= 3 and a non-empty
     # third-order basis: the solvers' own expansion of the full output is part of what the user receives
     fit_cells = [("tri2_P1", (3, 1, 1))] + ([] if ctx.quick else [("mono_P", (1, 3, 1)), ("tri2_P1", (1, 1, 4)), ("tri3_P1", (1, 3, 1))])
-    for cname, diag in fit_cells:
-        sc = make_supercell(base_cells()[cname], diag, rng=rng, shuffle=True)
+    from gens import reordered
+    fit_scs = [make_supercell(base_cells()[cname], diag, rng=rng, shuffle=True) for cname, diag in fit_cells]
+    fit_scs.insert(1, reordered(fit_scs[0]))      # a twin right after its sibling: same shapes, other translation table
+    for sc in fit_scs:
         N = len(sc["numbers"])
         at = atoms_of(sc)
         for orders in ([2, 3], [3], [2]):
